@@ -1422,9 +1422,10 @@ impl Scn {
 // ------------------------------------------------------------------------------------------------
 // random driver
 
-// sticky directories included (no set-gid ones: children would inherit the bit on the host)
-const DMODES: [u32; 6] = [0o755, 0o700, 0o775, 0o711, 0o1777, 0o1770];
-const FMODES: [u32; 4] = [0o644, 0o600, 0o664, 0o755];
+// sticky and read-only directories included (no set-gid ones: children would inherit the bit on the host)
+const DMODES: [u32; 8] = [0o755, 0o700, 0o775, 0o711, 0o1777, 0o1770, 0o555, 0o500];
+// files without the owner-write bit included (the driver runs as root: modes never block an operation)
+const FMODES: [u32; 8] = [0o644, 0o600, 0o664, 0o755, 0o444, 0o555, 0o060, 0o000];
 
 struct Gen {
     rng: Rng,
@@ -1662,6 +1663,25 @@ fn stacks(seed: u64) -> Vec<Value> {
             out.push(json!({"id": format!("cu{}_{}", ci, oi), "B": 16, "upper": true, "names": ["a","b","c"], "depth": 3,
                             "layers": [[], lower.clone()], "ops": ops}));
         }
+    }
+    // copy-up of lower regular files (and through lower directories) with read-only / odd modes: every trigger that
+    // copies up without setting the mode itself - setxattr, link, an open for writing, a write - on its own file
+    let fmodes: [u32; 6] = [0o444, 0o555, 0o060, 0o000, 0o4555, 0o2070];
+    let dmodes2: [u32; 6] = [0o555, 0o500, 0o1555, 0o000, 0o755, 0o050];
+    for (mi, fm) in fmodes.iter().enumerate() {
+        let dm = dmodes2[mi];
+        let f = |p: Value, tag: &str| json!({"p":p,"t":"file","m":fm,"c":[[format!("M{}{}", mi, tag), 0, 2]]});
+        let lower = json!([{"p":["a"],"t":"dir","m":dm}, f(json!(["a","a"]), "aa"), f(json!(["a","b"]), "ab"), f(json!(["a","c"]), "ac"), f(json!(["b"]), "b")]);
+        let mut ops = vec![json!({"op":"setxattr","p":["a","a"],"n":"user.j","v":"1"}), json!({"op":"link","src":["a","b"],"p":["c"]}),
+                           json!({"op":"open","p":["a","c"],"acc":"w","trunc":false,"app":false})];
+        if fm & 0o6000 == 0 {
+            // (writing may legitimately clear set-id bits: content triggers only on files without them)
+            ops.push(json!({"op":"write","p":["b"],"off":1,"c":[[format!("MW{}", mi), 0, 1]]}));
+        } else {
+            ops.push(json!({"op":"open","p":["b"],"acc":"rw","trunc":false,"app":true}));
+        }
+        out.push(json!({"id": format!("modes{}", mi), "B": 16, "upper": true, "names": ["a","b","c"], "depth": 3,
+                        "layers": [[], lower], "ops": ops}));
     }
     // OPEN flag words on lower-only (a), upper-only (b) and shadowing (c) files
     let fl = |n: &str, l: usize| json!({"p":[n],"t":"file","m":0o644,"c":[[format!("O{}{}", n, l), 0, 2]]});
